@@ -13,7 +13,7 @@ import (
 
 var ruleAtomicWrite = &Rule{
 	ID:    "R-ATOMICWRITE",
-	Doc:   "`evy fmt -w` file discipline over the call graph rooted at (*fmtCmd).Run: only CreateTemp/Write/Chmod/Close/Rename/Stat/ReadFile touch files (W1); the temp file is created in the target's directory and renamed onto the target (W2); CreateTemp→Write→Chmod→Close→Rename happen in this order, each error tested, its failing edge never reaching Rename (W3); the temp file gets the target's permission bits from Stat (W4); the writer runs only after a successful format, with format's output, under the Write flag, and format gets the Check flag (W5); --check compares input with the formatter's own output and fails exactly on the unequal edge (W6); an error for one file ends the command with that error (W7)",
+	Doc:   "`evy fmt -w` file discipline over the call graph rooted at (*fmtCmd).Run: only CreateTemp/Write/Chmod/Close/Rename/Stat/ReadFile touch files (W1); the temp file is created in the target's directory and renamed onto the target (W2); CreateTemp→Write→Chmod→Close→Rename happen in this order, each error tested, its failing edge never reaching Rename (W3); the temp file gets the target's permission bits from Stat (W4); the writer runs only after a successful format, with format's output, under the Write flag, and format gets the Check flag (W5); --check compares input with the formatter's own output and fails exactly on the unequal edge (W6); an error for one file ends the command with that error (W7); an error carried around a loop over the members of an archive is tested or used inside the loop before the next member replaces it (W8)",
 	Floor: 15,
 	Run:   runAtomicWrite,
 }
